@@ -8,9 +8,9 @@ D=$(mktemp -d /tmp/vfseed.XXXXXX)
 trap 'rm -rf "$D"' EXIT
 rsync -a --exclude .git --exclude _seed /repo/ "$D/repo/"
 mkdir -p "$D/repo/_seed/k" && cp "$SD"/demo.py "$D/repo/_seed/k/demo.py"
-(cd "$D/repo" && /venv/bin/python _seed/k/demo.py >/dev/null 2>&1); echo "demo on clean tree: exit=$? (want 0)"
+(cd "$D/repo" && PYTHONPATH="$D/repo" /venv/bin/python _seed/k/demo.py >/dev/null 2>&1); echo "demo on clean tree: exit=$? (want 0)"
 (cd "$D/repo" && patch -p1 -s --no-backup-if-mismatch < "$SD/patch.diff") || { echo "PATCH FAILED"; exit 9; }
-(cd "$D/repo" && /venv/bin/python _seed/k/demo.py >/dev/null 2>&1); echo "demo on changed tree: exit=$? (want non-zero)"
+(cd "$D/repo" && PYTHONPATH="$D/repo" /venv/bin/python _seed/k/demo.py >/dev/null 2>&1); echo "demo on changed tree: exit=$? (want non-zero)"
 if [ $NOTESTS = 0 ]; then (cd "$D/repo" && /venv/bin/python -m pytest -q -p no:cacheprovider --timeout=900 2>&1 | tail -1); fi
 mkdir -p "$D/out"
 cd /verif && FRAME_REPO="$D/repo" VF_OUT="$D/out" ./check "$PROP" "$@" > "$D/log" 2>&1
